@@ -30,7 +30,8 @@ class PCN(Sampler):  # Refactor to Proposal-based sampler?
     def step(self):
         # propose state
         xi = self.prior.sample(1).flatten()   # sample from the prior
-        x_star = np.sqrt(1-self.scale**2)*self.current_point + self.scale*xi   # PCN proposal
+        mean = self.prior.mean   # the proposal must be reversible w.r.t. the prior N(mean, C): move around its mean
+        x_star = mean + np.sqrt(1-self.scale**2)*(self.current_point-mean) + self.scale*(xi-mean)   # PCN proposal
 
         # evaluate target
         loglike_eval_star =  self._loglikelihood(x_star) 
